@@ -25,6 +25,7 @@ import (
 // Cleanup.c_step by CleanupCheck.ccase_ok.
 
 type ccCase struct {
+	RO      bool       `json:"remove_outputs,omitempty"` // the RemoveOutputs handler (machine CleanupRO.v) instead of HasNoOutputs
 	Combine bool       `json:"combine,omitempty"`
 	Sched   []qgChoice `json:"sched"`
 }
@@ -92,6 +93,11 @@ func runGatedCleanup(t *testing.T, c ccCase) (coq string, flags map[string]bool,
 			kinds = []string{"O", "O2"}
 		}
 
+		if c.RO {
+			handler = cleanup.RemoveOutputs[*OutRes](sel)
+			kinds = []string{"O"}
+		}
+
 		inner := cleanup.NewController(cleanup.Settings[*InRes]{Name: "cl", Handler: handler})
 
 		rt, err := cruntime.NewRuntime(st, zap.NewNop())
@@ -144,6 +150,13 @@ func runGatedCleanup(t *testing.T, c ccCase) (coq string, flags map[string]bool,
 			return g.pending, g.release
 		}
 
+		pendingTarget := func() string {
+			g.mu.Lock()
+			defer g.mu.Unlock()
+
+			return g.target
+		}
+
 		startRun()
 
 		g.ev <- controller.ReconcileEvent{}
@@ -151,6 +164,15 @@ func runGatedCleanup(t *testing.T, c ccCase) (coq string, flags map[string]bool,
 		synctest.Wait()
 
 		var steps []string
+
+		// RemoveOutputs flavour: the same schedule language with the R-constructors of CleanupRO.v and the call's target
+		add := func(step, target string) {
+			if c.RO {
+				step = "(R" + strings.TrimSuffix(strings.TrimPrefix(step, "(C"), ")") + ", " + target + ")"
+			}
+
+			steps = append(steps, step)
+		}
 
 		inPass := true // the first pass has started (model: C0)
 		createdSinceList := false
@@ -182,6 +204,11 @@ func runGatedCleanup(t *testing.T, c ccCase) (coq string, flags map[string]bool,
 					return
 				}
 
+				target := pendingTarget()
+				if kind == "GList" {
+					target = ""
+				}
+
 				g.mu.Lock()
 				g.pending, g.release = "", nil
 				g.mu.Unlock()
@@ -196,6 +223,10 @@ func runGatedCleanup(t *testing.T, c ccCase) (coq string, flags map[string]bool,
 						for _, k := range kinds {
 							for _, id := range []string{"d1", "d2"} {
 								if d := get(k, id); d != nil {
+									if c.RO && d.Metadata().Owner() != "" {
+										continue // RemoveOutputs leaves owned dependents to their owner
+									}
+
 									if v, _ := d.Metadata().Labels().Get("in"); v == "a" {
 										problem = fmt.Sprintf("released-before-handler: RemoveFinalizer on the torn-down input is issued while dependent %s/%s (phase %s, finalizers %v) still exists", k, id, d.Metadata().Phase(), *d.Metadata().Finalizers())
 									}
@@ -206,7 +237,7 @@ func runGatedCleanup(t *testing.T, c ccCase) (coq string, flags map[string]bool,
 				}
 
 				flags["call:"+kind] = true
-				steps = append(steps, fmt.Sprintf("(CStep %s, %s)", now(), kind))
+				add(fmt.Sprintf("(CStep %s, %s)", now(), kind), coqAtom(target))
 
 				close(rel)
 				synctest.Wait()
@@ -241,7 +272,7 @@ func runGatedCleanup(t *testing.T, c ccCase) (coq string, flags map[string]bool,
 				synctest.Wait()
 
 				inPass = true
-				steps = append(steps, "(CRestart, GNone)")
+				add("(CRestart, GNone)", "0%N")
 				flags["restart"] = true
 
 				if _, rel := pending(); rel == nil {
@@ -259,7 +290,7 @@ func runGatedCleanup(t *testing.T, c ccCase) (coq string, flags map[string]bool,
 				case "in.create":
 					payloadN++
 					in := newIn("a", fmt.Sprintf("p%d", payloadN))
-					steps = append(steps, fmt.Sprintf("(CEnv %s (OpCreate %s 0%%N), GNone)", now(), coqRes(in, t0)))
+					add(fmt.Sprintf("(CEnv %s (OpCreate %s 0%%N), GNone)", now(), coqRes(in, t0)), "0%N")
 					st.Create(ctx, in) //nolint:errcheck
 
 					continue
@@ -281,7 +312,7 @@ func runGatedCleanup(t *testing.T, c ccCase) (coq string, flags map[string]bool,
 						r.Metadata().Finalizers().Remove(ch.Fin)
 					}
 				case "in.destroy":
-					steps = append(steps, fmt.Sprintf("(CEnv %s (OpDestroy %s 0%%N), GNone)", now(), coqKey("n1", "T", "a")))
+					add(fmt.Sprintf("(CEnv %s (OpDestroy %s 0%%N), GNone)", now(), coqKey("n1", "T", "a")), "0%N")
 					st.Destroy(ctx, resource.NewMetadata("n1", "T", "a", resource.VersionUndefined)) //nolint:errcheck
 
 					continue
@@ -292,15 +323,25 @@ func runGatedCleanup(t *testing.T, c ccCase) (coq string, flags map[string]bool,
 					}
 
 					d.Metadata().Labels().Set("in", "a")
-					steps = append(steps, fmt.Sprintf("(CEnv %s (OpCreate %s 0%%N), GNone)", now(), coqRes(d, t0)))
+					add(fmt.Sprintf("(CEnv %s (OpCreate %s 0%%N), GNone)", now(), coqRes(d, t0)), "0%N")
 					st.Create(ctx, d) //nolint:errcheck
 
 					flags["dependent_created"] = true
 					createdSinceList = true
 
 					continue
+				case "dep.createowned":
+					d := newOut(ch.Owner, "dep")
+					d.Metadata().Labels().Set("in", "a")
+					add(fmt.Sprintf("(CEnv %s (OpCreate %s %s), GNone)", now(), coqRes(d, t0), coqAtom("ow")), "0%N")
+
+					if st.Create(ctx, d, state.WithCreateOwner("ow")) == nil {
+						flags["owned_dependent"] = true
+					}
+
+					continue
 				case "dep.destroy":
-					steps = append(steps, fmt.Sprintf("(CEnv %s (OpDestroy %s 0%%N), GNone)", now(), coqKey("n1", ch.Fin, ch.Owner)))
+					add(fmt.Sprintf("(CEnv %s (OpDestroy %s 0%%N), GNone)", now(), coqKey("n1", ch.Fin, ch.Owner)), "0%N")
 
 					if st.Destroy(ctx, resource.NewMetadata("n1", ch.Fin, ch.Owner, resource.VersionUndefined)) == nil {
 						flags["dependent_destroyed"] = true
@@ -321,6 +362,10 @@ func runGatedCleanup(t *testing.T, c ccCase) (coq string, flags map[string]bool,
 					if r = get(ch.Fin, ch.Owner); r != nil {
 						r.Metadata().Finalizers().Add(extFin)
 					}
+				case "dep.remfin":
+					if r = get(ch.Fin, ch.Owner); r != nil {
+						r.Metadata().Finalizers().Remove(extFin)
+					}
 				}
 
 				if r == nil {
@@ -328,7 +373,7 @@ func runGatedCleanup(t *testing.T, c ccCase) (coq string, flags map[string]bool,
 				}
 
 				flags[ch.Env] = true
-				steps = append(steps, fmt.Sprintf("(CEnv %s (OpUpdate %s %s None), GNone)", now(), coqRes(r, t0), coqAtom(owner)))
+				add(fmt.Sprintf("(CEnv %s (OpUpdate %s %s None), GNone)", now(), coqRes(r, t0), coqAtom(owner)), "0%N")
 
 				st.Update(ctx, r, state.WithUpdateOwner(owner), state.WithExpectedPhaseAny()) //nolint:errcheck
 			}
@@ -358,6 +403,18 @@ func runGatedCleanup(t *testing.T, c ccCase) (coq string, flags map[string]bool,
 		coq = fmt.Sprintf("(%s, %s, %s, %s, %s, %s, %s, %s, %s)",
 			coqAtom("n1"), coqAtom("T"), coqAtom("cl"), coqAtom("in"), coqList(ks), coqAtom("a"), coqList(steps), final, coqList(lists))
 
+		if c.RO {
+			ins, err1 := coqListOf(ctx, st, "n1", "T", t0)
+			outs, err2 := coqListOf(ctx, st, "n1", "O", t0)
+
+			if err1 != nil || err2 != nil {
+				t.Fatal(err1, err2)
+			}
+
+			coq = fmt.Sprintf("(%s, %s, %s, %s, %s, %s, %s, %s, %s, %s)",
+				coqAtom("n1"), coqAtom("T"), coqAtom("O"), coqAtom("cl"), coqAtom("in"), coqAtom("a"), coqList(steps), final, ins, outs)
+		}
+
 		cancel()
 
 		if stopRun != nil {
@@ -383,6 +440,10 @@ func runGatedCleanup(t *testing.T, c ccCase) (coq string, flags map[string]bool,
 func genGatedCleanup(r *rng) ccCase {
 	c := ccCase{Combine: r.chance(1, 2)}
 
+	if r.chance(1, 3) {
+		c = ccCase{RO: true}
+	}
+
 	c.Sched = append(c.Sched, qgChoice{Kind: "env", Env: "in.create"})
 
 	depKinds := []string{"O"}
@@ -407,7 +468,12 @@ func genGatedCleanup(r *rng) ccCase {
 		case x < 19:
 			c.Sched = append(c.Sched, qgChoice{Kind: "env", Env: "dep.destroy", Fin: pick(r, depKinds), Owner: pick(r, []string{"d1", "d2"})})
 		default:
-			c.Sched = append(c.Sched, qgChoice{Kind: "env", Env: pick(r, []string{"dep.relabel", "dep.teardown", "dep.teardown", "dep.addfin"}), Fin: pick(r, depKinds), Owner: pick(r, []string{"d1", "d2"})})
+			e := qgChoice{Kind: "env", Env: pick(r, []string{"dep.relabel", "dep.teardown", "dep.teardown", "dep.addfin"}), Fin: pick(r, depKinds), Owner: pick(r, []string{"d1", "d2"})}
+			if c.RO && r.chance(1, 3) {
+				e.Env = "dep.createowned"
+			}
+
+			c.Sched = append(c.Sched, e)
 		}
 	}
 
@@ -442,6 +508,23 @@ func cleanupCorpus() []ccCase {
 		}
 	}
 
+	// RemoveOutputs: the handler itself tears the dependent down and destroys it (list, teardown, destroy, release)
+	roBase := []qgChoice{
+		{Kind: "env", Env: "in.create"}, step, step, {Kind: "env", Env: "dep.create", Fin: "O", Owner: "d1"}, {Kind: "restart"},
+		{Kind: "env", Env: "in.teardown"}, step, step, step, step, step, {Kind: "restart"}, step, step, step, step,
+	}
+	roEnvs := append(append([]qgChoice(nil), envs...), qgChoice{Kind: "env", Env: "dep.createowned", Fin: "O", Owner: "d2"},
+		qgChoice{Kind: "env", Env: "dep.remfin", Fin: "O", Owner: "d1"})
+
+	for pos := 4; pos <= len(roBase); pos++ {
+		for _, e := range roEnvs {
+			sched := append([]qgChoice(nil), roBase[:pos]...)
+			sched = append(sched, e)
+			sched = append(sched, roBase[pos:]...)
+			out = append(out, ccCase{RO: true, Sched: sched})
+		}
+	}
+
 	return out
 }
 
@@ -449,8 +532,9 @@ func gatedCleanupPhase(t *testing.T) func(rep *Report, dir string) {
 	return func(rep *Report, dir string) {
 		r := newRng(seed(), "C07cleanup")
 		f := newCoqFile("C07_cleanup_cases", []string{"Store", "Helpers", "DepDB", "Access", "GenCtl", "GenCtlCheck", "Cleanup", "CleanupCheck"}, "ccase", "cleanup_mismatches")
+		fr := newCoqFile("C07_cleanup_ro_cases", []string{"Store", "Helpers", "DepDB", "Access", "GenCtl", "GenCtlCheck", "Cleanup", "CleanupRO", "CleanupROCheck"}, "rocase", "cleanup_ro_mismatches")
 
-		var jl []any
+		var jl, jlr []any
 
 		todo := cleanupCorpus()
 
@@ -462,18 +546,23 @@ func gatedCleanupPhase(t *testing.T) func(rep *Report, dir string) {
 
 			coq, flags, problem := runGatedCleanup(t, c)
 			if problem != "" {
-				rep.violateKey(len(jl), "gated-cleanup:"+strings.SplitN(problem, ":", 2)[0], problem, map[string]any{"cleanup": c})
+				rep.violateKey(len(jl)+len(jlr), "gated-cleanup:"+strings.SplitN(problem, ":", 2)[0], problem, map[string]any{"cleanup": c})
 
 				if coq == "" {
 					continue
 				}
 			}
 
-			f.add(coq)
-			jl = append(jl, map[string]any{"cleanup": c})
+			if c.RO {
+				fr.add(coq)
+				jlr = append(jlr, map[string]any{"cleanup": c})
+			} else {
+				f.add(coq)
+				jl = append(jl, map[string]any{"cleanup": c})
+			}
 
 			rep.count(fmt.Sprint(c), len(flags) >= 5)
-			rep.hit("cleanup:combine=" + fmt.Sprint(c.Combine))
+			rep.hit("cleanup:combine=" + fmt.Sprint(c.Combine) + ",remove_outputs=" + fmt.Sprint(c.RO))
 
 			for fl := range flags {
 				rep.hit("cleanup:" + fl)
@@ -481,5 +570,6 @@ func gatedCleanupPhase(t *testing.T) func(rep *Report, dir string) {
 		}
 
 		f.finishSharded(t, dir, rep, jl, 400)
+		fr.finishSharded(t, dir, rep, jlr, 400)
 	}
 }
